@@ -6414,7 +6414,7 @@ class CreateStatementSegment(BaseSegment):
             Sequence(
                 "REFRESH_INTERVAL_SECONDS",
                 Ref("EqualsSegment"),
-                Ref("LiteralSegment"),
+                Ref("NumericLiteralSegment"),
             ),
             Ref("CommentEqualsClauseSegment"),
             # AWS Glue specific params:
